@@ -24,6 +24,8 @@ def check(ctx: Ctx) -> None:
     # else the pool knows about it
     from .cancel import r_lookup_table
     r_lookup_table(ctx, "R13.6")
+    # ... and stays forgotten: nothing but the task's own ending files a task as ended (a late done-callback must not re-file it)
+    S.r_registry_who(ctx, "R13.7")
 
 
 def r_once_forgotten(ctx: Ctx, rule: str) -> None:
